@@ -40,4 +40,11 @@ def prove_all():
     base = f(x) + 0 <= f(x + 0)
     step = z3.Implies(z3.And(d >= 0, f(x) + d <= f(x + d), f(x + d) < f(x + d + 1)), f(x) + (d + 1) <= f(x + d + 1))
     out.append(("L4 strictly increasing => f(a)+(b-a) <= f(b)", _valid(base) and _valid(step)))
+    # L5 linearity: g(i) = a(i) + c  =>  G(i) = A(i) + c*i   (c a constant; checked for a symbolic c with the product as atom)
+    G, A = z3.Function("G", Int, Int), z3.Function("A", Int, Int)
+    c, ci, ci1 = z3.Ints("c c_times_i c_times_i1")
+    base = z3.Implies(z3.And(G(0) == 0, A(0) == 0), G(0) == A(0) + 0)
+    step = z3.Implies(z3.And(i >= 0, G(i) == A(i) + ci, ci1 == ci + c,                      # c*(i+1) = c*i + c
+                             G(i + 1) == G(i) + (a(i) + c), A(i + 1) == A(i) + a(i)), G(i + 1) == A(i + 1) + ci1)
+    out.append(("L5 prefix sum of (a + c) = prefix sum of a + c*i", _valid(base) and _valid(step)))
     return out
